@@ -122,7 +122,55 @@ def s_setop(tab, Q=Query):
     return Q.from_(t("from")).select(fld(t("select"), "a")).union(Q.from_(t("from2")).select(fld(t("select2"), "b"))).orderby(fld(t("order"), "a"))
 
 
-STMTS = {f.__name__[2:]: f for f in (s_select, s_select2, s_cross, s_cte, s_insert, s_insert_select, s_update, s_update_from, s_update_join,
+def s_twins(tab, Q=Query):
+    """items that look alike (same function, same column name) but belong to different tables, in the select list, GROUP BY
+    and ORDER BY: replacing one of them must not drag the other along (nor leave it behind)"""
+    t = tab
+    return (Q.from_(t("from")).join(t("join")).on(fld(t("from"), "id") == fld(t("join"), "id"))
+            .select(FN.Sum(fld(t("sel1"), "amount")), FN.Sum(fld(t("sel2"), "amount")), fld(t("sel3"), "k"), fld(t("sel4"), "k"))
+            .where((fld(t("w1"), "z") > 1) & (fld(t("w2"), "z") > 1))
+            .groupby(FN.Extract("YEAR", fld(t("g1"), "d")), FN.Extract("YEAR", fld(t("g2"), "d")))
+            .having((FN.Max(fld(t("h1"), "m")) > 0) & (FN.Max(fld(t("h2"), "m")) > 0))
+            .orderby(fld(t("o1"), "x") - 1, fld(t("o2"), "x") - 1))
+
+
+def s_nested(tab, Q=Query):
+    """the table two and three levels below a joined / FROM / IN / select-list subquery"""
+    t = tab
+    deep = Q.from_(t("d3_from")).select(fld(t("d3_sel"), "a")).where(fld(t("d3_where"), "w") == 1)
+    mid = Q.from_(deep).select(deep.a).where(deep.a.isin(Q.from_(t("d2_in_from")).select(fld(t("d2_in_sel"), "i"))))
+    joined = Q.from_(mid).select(mid.a).as_("jn")
+    in_sub = Q.from_(Q.from_(t("in_d2_from")).select("x")).select("x")
+    sel_sub = Q.from_(Q.from_(t("sel_d2_from")).select(fld(t("sel_d2_sel"), "m"))).select("m").limit(1)
+    return (Q.from_(t("from")).join(joined).on(fld(t("from"), "id") == joined.a).select(fld(t("select"), "s"), sel_sub)
+            .where(fld(t("where"), "w").isin(in_sub)))
+
+
+def s_from_nested(tab, Q=Query):
+    t = tab
+    deep = Q.from_(t("d2_from")).select(fld(t("d2_sel"), "a"))
+    mid = Q.from_(deep).select(deep.a).where(deep.a > fld(t("d1_where_foreign"), "f"))
+    return Q.from_(mid).select(mid.a)
+
+
+def s_pg_returning_star(tab, Q=PostgreSQLQuery):
+    t = tab
+    return (Q.update(t("update")).set(fld(t("set_lhs"), "a"), 1).returning("*")
+            .returning(fld(t("update"), "price") + fld(t("update"), "tax"), fld(t("update"), "id")))
+
+
+def s_pg_insert_returning(tab, Q=PostgreSQLQuery):
+    t = tab
+    return (Q.into(t("into")).columns("a").insert(1).on_conflict("id").do_update("a", fld(t("do_update_value"), "a") + 1)
+            .returning(t("into").star if t("into") is not None else Field("z"), fld(t("into"), "a") * 2))
+
+
+def s_delete_using(tab, Q=Query):
+    t = tab
+    return Q.from_(t("from")).delete().where(fld(t("where"), "w").isin(Q.from_(t("in_from")).select(fld(t("in_sel"), "i")).where(fld(t("in_where"), "q") == fld(t("corr"), "q"))))
+
+
+STMTS = {f.__name__[2:]: f for f in (s_twins, s_nested, s_from_nested, s_pg_returning_star, s_pg_insert_returning, s_delete_using, s_select, s_select2, s_cross, s_cte, s_insert, s_insert_select, s_update, s_update_from, s_update_join,
                                       s_delete, s_pg_returning, s_pg_distinct_on, s_setop)}
 
 
@@ -235,8 +283,14 @@ def run_case(case):
         recv = build(mk_old)
         want = build(mk_new)
     except Exception as e:
-        res.extra["disabled"] = 1
-        res.extra.setdefault("disabled_kinds", set()).add("%s:%s" % (sigsite, type(e).__name__))
+        if (sigsite, type(e).__name__) in (("update_join.from", "JoinException"),):
+            # the base table appears in update() and in the ON criterion: with "old" in only one of them the join is invalid
+            res.extra["disabled"] = 1
+            res.extra.setdefault("disabled_kinds", set()).add("%s:%s" % (sigsite, type(e).__name__))
+            return res
+        res.nontrivial = 1
+        res.violate("C16|%s|build-raises|%s" % (sigsite, type(e).__name__), "a valid construction of the menu was rejected while it was built",
+                    case=case, error=str(e)[:200])
         return res
     if not hasattr(recv, "replace_table") or not hasattr(recv, "get_sql"):
         res.extra["disabled"] = 1  # e.g. QueryBuilder == 1 is a bool: the composition is not a term
